@@ -287,6 +287,11 @@ func H_C05_replace() {
 		Signer: authorityAddr.String(), OriginalMessage: verif.Bytes("message", n), OriginalAttestation: verif.Bytes("attestation", n),
 		NewDestinationCaller: verif.Bytes("caller", n), NewMintRecipient: verif.Bytes("recipient", n),
 	}
+	if verif.Bool("original-message-is-a-genuine-burn-message") {
+		// a well-formed CCTP message wrapping a burn message (version 0, domains 4 -> 0, nonce 7, mint recipient ab..ab,
+		// amount 1000): whatever the module could read out of it, the request carries the authority's fields
+		m.OriginalMessage = genuineBurnMessage()
+	}
 	w.CCTP.faults = true
 	_, err := ms.ReplaceDepositForBurn(w.Ctx, m)
 	if err != nil {
@@ -429,4 +434,21 @@ func H_C05_sequence() {
 		verif.Assert(len(r.Amount) == 1 && r.Amount[0].Denom == nativeDenom && r.Amount[0].Amount.Equal(D), "internal-coin-is-the-post-action-coin")
 	}
 	verif.Cover("second-forwarded")
+}
+
+const genuineBurnMessageHex = "0000000000000004000000000000000000000007333333333333333333333333333333333333333333333333333333333333333344444444444444444444444444444444444444444444444444444444444444440000000000000000000000000000000000000000000000000000000000000000000000001111111111111111111111111111111111111111111111111111111111111111abababababababababababababababababababababababababababababababab00000000000000000000000000000000000000000000000000000000000003e82222222222222222222222222222222222222222222222222222222222222222"
+
+func genuineBurnMessage() []byte {
+	b := make([]byte, 0, len(genuineBurnMessageHex)/2)
+	for i := 0; i+1 < len(genuineBurnMessageHex); i += 2 {
+		b = append(b, hexNibble(genuineBurnMessageHex[i])<<4|hexNibble(genuineBurnMessageHex[i+1]))
+	}
+	return b
+}
+
+func hexNibble(c byte) byte {
+	if c >= 'a' {
+		return c - 'a' + 10
+	}
+	return c - '0'
 }
